@@ -388,3 +388,87 @@ package meta
 //@   ensures (result == nil) == (data.ReplicaGroups == nil)
 //@   ensures result != nil ==> fresh(result)
 //@   trusted_assigns nothing
+
+// ================================================================ C13: dropping removes exactly what was named
+//@ prop C13
+
+// Re-creating a measurement after a drop bumps the version kept for its name (the physical name changes,
+// so index entries and files of the dropped incarnation can never be attributed to the new one).
+//@ func (*Data).CreateMeasurement
+//@   requires data != nil
+//@   call (*Data).createVersionMeasurement
+//@     requires (mst in rp.MstVersions) ==> arg7 == (rp.MstVersions[mst].Version + 1) & 65535
+//@     requires !(mst in rp.MstVersions) ==> arg7 == 0
+//@     requires arg6 == mst && arg1 == rp
+
+// Only the named measurement is removed, and only once it has been marked deleted.
+//@ func (*Data).DropMeasurement
+//@   requires data != nil
+//@   call delete
+//@     requires arg1 == nameWithVer && arg0 == rpi.Measurements && m.MarkDeleted && k == nameWithVer
+
+// Every map entry removed by DROP DATABASE is keyed by the dropped name.
+//@ func (*Data).DropDatabase
+//@   requires data != nil
+//@   call delete
+//@     requires arg1 == name
+
+//@ func (*Data).CheckStreamExistInDatabase
+//@   trusted_assigns nothing
+//@ func (*Data).CheckStreamExistInRetention
+//@   trusted_assigns nothing
+//@ func (*Data).CheckStreamExistInMst
+//@   trusted_assigns nothing
+//@ func (*Data).checkMigrateConflict
+//@   trusted_assigns nothing
+
+// The delete mark is set only after every precondition check passed; a failing command changes nothing.
+//@ func (*Data).MarkDatabaseDelete
+//@   requires data != nil
+//@   ghost e1 Iface = nil
+//@   ghost e2 Iface = nil
+//@   ghost n int = 0
+//@   call (*Data).CheckStreamExistInDatabase
+//@     set e1 = ret0
+//@     set n = n + 1
+//@   call (*Data).checkMigrateConflict
+//@     set e2 = ret0
+//@     set n = n + 1
+//@   store DatabaseInfo.MarkDeleted
+//@     requires n == 2 && e1 == nil && e2 == nil && val && dbi == data.Databases[name] && dbi != nil
+
+//@ func (*Data).MarkRetentionPolicyDelete
+//@   requires data != nil
+//@   ghost e0 Iface = nil
+//@   ghost e1 Iface = nil
+//@   ghost e2 Iface = nil
+//@   ghost n int = 0
+//@   call (*Data).RetentionPolicy
+//@     set e0 = ret1
+//@     set n = n + 1
+//@   call (*Data).CheckStreamExistInRetention
+//@     set e1 = ret0
+//@     set n = n + 1
+//@   call (*Data).checkMigrateConflict
+//@     set e2 = ret0
+//@     set n = n + 1
+//@   store RetentionPolicyInfo.MarkDeleted
+//@     requires n == 3 && e0 == nil && e1 == nil && e2 == nil && val
+
+//@ func (*Data).MarkMeasurementDelete
+//@   requires data != nil
+//@   ghost e0 Iface = nil
+//@   ghost e1 Iface = nil
+//@   ghost e2 Iface = nil
+//@   ghost n int = 0
+//@   call (*Data).Measurement
+//@     set e0 = ret1
+//@     set n = n + 1
+//@   call (*Data).CheckStreamExistInMst
+//@     set e1 = ret0
+//@     set n = n + 1
+//@   call (*Data).checkMigrateConflict
+//@     set e2 = ret0
+//@     set n = n + 1
+//@   store MeasurementInfo.MarkDeleted
+//@     requires n == 3 && e0 == nil && e1 == nil && e2 == nil && val
